@@ -53,11 +53,29 @@ def run(ctx):
     ctx.assume("distinct reports colliding on the 16-byte tag is a probabilistic event, not decided")
 
 
+def dup_check_calls(facts, b):
+    """[(bb, terminator, operand holding the tags)]: calls of UniqueTagValidator::check_duplicates, or of a small wrapper
+    in the runner module that builds a validator and returns check_duplicates(<its own argument>) unchanged"""
+    out = [(bb, t, t["args"][1]) for bb, t in flow.find_calls(b, re.compile(r"UniqueTagValidator::check_duplicates$"))]
+    for p_, wb in facts.bodies.items():
+        if not p_.startswith("query::runner::hybrid::") or "::{closure" in p_ or facts.is_test_path(p_) or wb is b:
+            continue
+        cs = flow.find_calls(wb, re.compile(r"UniqueTagValidator::check_duplicates$"))
+        if len(cs) != 1:
+            continue
+        passes_arg = "('arg', 1)" in str(flow.expr_of(wb, cs[0][1]["args"][1], max_depth=8))
+        ret = flow.strip_casts(flow.expr_of(wb, {"cp": [0]}, max_depth=8))
+        returns_it = ret[0] == "call" and ret[1].endswith("UniqueTagValidator::check_duplicates")
+        if passes_arg and returns_it:
+            out += [(bb, t, t["args"][0]) for bb, t in b.calls() if (F.callee(t)[0] or "") == p_]
+    return out
+
+
 def order(ctx, facts, b):
     ctx.rule("ORDER: reshard_aad settled(`?`) < check_duplicates (`?`) < hybrid_protocol")
     dom = b.dominators()
     ra = flow.find_calls(b, re.compile(r"reshard_tag::reshard_aad$"))
-    cd = flow.find_calls(b, re.compile(r"UniqueTagValidator::check_duplicates$"))
+    cd = [(bb, t) for bb, t, _ in dup_check_calls(facts, b)]
     hp = flow.find_calls(b, re.compile(r"protocol::hybrid::hybrid_protocol$"))
     if not cd:
         return ctx.ob("ORDER", "check-present", False, "the query runner no longer checks the resharded tags for duplicates", site_of(b))
@@ -75,14 +93,15 @@ def order(ctx, facts, b):
 
 def flow_rules(ctx, facts, b, tree):
     ctx.rule("FLOW: check_duplicates(&resharded_tags) with resharded_tags = reshard_aad(..).1; tag = UniqueTag::from_unique_bytes(&enc_report) of the report being decrypted; unique_bytes = mk_ciphertext()[0..TAG_SIZE]")
-    cd = flow.find_calls(b, re.compile(r"UniqueTagValidator::check_duplicates$"))
+    cdx = dup_check_calls(facts, b)
+    cd = [(bb, t) for bb, t, _ in cdx]
     if cd:
-        e = flow.expr_of(b, cd[0][1]["args"][1])
+        e = flow.expr_of(b, cdx[0][2])
         s = str(e)
         ok = "reshard_aad" in s or "Future::poll" in s
         # the tuple component: second element of the awaited pair
         comp1 = re.search(r"'1'\)|, 1\)", s) is not None or "'1'" in s
-        org = flow.origins(b, cd[0][1]["args"][1], through_calls=(r"Deref::deref$", r"Try::branch$"))
+        org = flow.origins(b, cdx[0][2], through_calls=(r"Deref::deref$", r"Try::branch$"))
         ctx.ob("FLOW", "checks-resharded-tags", comp1, "the collection checked is the tag component of reshard_aad's result" if comp1 else f"the collection checked is not reshard_aad(..).1: {s[:160]}", site_of(b, cd[0][0]))
     # tag and decrypt on the same report
     found = False
@@ -105,6 +124,11 @@ def flow_rules(ctx, facts, b, tree):
         rngs = [[flow.expr_of(u, o) for o in s["r"]["ops"]] for _, _, s in u.iter_assigns() if s["r"]["k"] == "agg" and s["r"].get("adt") == "std::ops::Range"]
         mk = bool(flow.find_calls(u, re.compile(r"mk_ciphertext$")))
         ok = mk and len(rngs) == 1 and rngs[0][0] == ("const", 0) and rngs[0][1][0] == "const" and rngs[0][1][1] == 16
+        if mk and not rngs:
+            # `[..TAG_SIZE]` is the same prefix
+            rto = [[flow.expr_of(u, o) for o in s_["r"]["ops"]] for _, _, s_ in u.iter_assigns() if s_["r"]["k"] == "agg" and s_["r"].get("adt") == "std::ops::RangeTo"]
+            ok = len(rto) == 1 and rto[0][0][0] == "const" and rto[0][0][1] == 16
+            rngs = rto
         ctx.ob("FLOW", "unique-bytes-prefix", ok, "unique_bytes = mk_ciphertext()[0..16]" if ok else f"unique_bytes is not the 16-byte ciphertext prefix ({rngs})", site_of(u))
 
 
@@ -151,9 +175,21 @@ def guard(ctx, facts):
     ctx.ob("GUARD", "insert:is-set-insert", ok, "insert() returns HashSet::insert's `newly inserted` flag" if ok else f"insert() returns {str(e)[:100]}", site_of(ins))
     tfe = flow.find_calls(cds, re.compile(r"Iterator::try_for_each$"))
     q = flow.question_mark(cds, tfe[0][1]["d"][0]) if tfe else None
+    direct = flow.find_calls(cds, re.compile(r"UniqueTagValidator::check_duplicate$"))
+    loop_form = False
+    if not tfe and direct:
+        # `for item in items { self.check_duplicate(item)?; }`: the call sits in an exhaustive loop over the argument and
+        # its error is propagated
+        q = flow.question_mark(cds, direct[0][1]["d"][0])
+        nx = [(bb, t) for bb, t in cds.calls() if (F.callee(t)[0] or "").endswith("Iterator::next") and "('arg', 2)" in str(flow.expr_of(cds, t["args"][0], max_depth=8))]
+        item = str(flow.expr_of(cds, direct[0][1]["args"][1], max_depth=10))
+        rets_ = [x for x in cds.live_blocks() if cds.term(x)["k"] == "ret"]
+        errs_ = {bb for bb, t in cds.calls() if re.search(r"FromResidual", F.callee(t)[0] or "")}
+        loop_form = len(nx) == 1 and "Iterator::next" in item and not any(r_ in cds.reachable(direct[0][0], avoid=frozenset([nx[0][0]]) | errs_) for r_ in rets_)
     ctx.ob("GUARD", "check_duplicates:propagates", q is not None, "the first duplicate error is returned" if q else "errors from check_duplicate are not propagated", site_of(cds))
     clos = [x for x in facts.tree("report::hybrid::UniqueTagValidator::check_duplicates") if x.kind == "Closure"]
     okc = any(flow.find_calls(x, re.compile(r"UniqueTagValidator::check_duplicate$")) for x in clos)
+    okc = okc or loop_form
     ctx.ob("GUARD", "check_duplicates:per-item", okc, "every item goes through check_duplicate", site_of(cds))
 
 
